@@ -238,7 +238,7 @@ example :
 /-- the rules evaluated at one rule timestep are applied in exactly that order -/
 theorem rules_priority_wins (cfg : Cfg) (s : St) (k : Nat) :
     (runRules cfg s).vals.get k =
-      match winner k (check cfg.startClock (s.simTime - cfg.rule) s.simTime cfg.rules) with
+      match winner k (check cfg.startClock (ruleWindowLo cfg s.simTime) s.simTime cfg.rules) with
       | some w => (w.writes k).getD 0
       | none => s.vals.get k := by
   unfold runRules
@@ -246,20 +246,76 @@ theorem rules_priority_wins (cfg : Cfg) (s : St) (k : Nat) :
   exact priority_wins _ _ _
 
 /-- **a rule with an `=` time premise acts at the first rule timestep at or after its instant**: at the rule timestep
-`r` the rule `IF SYSTEM TIME = c` is due iff `r - rule_timestep < c ≤ r`, whatever hydraulic solutions lie in between
-(the windows of consecutive rule timesteps tile the time axis, and by `rules_on_positive_grid` every positive multiple
-up to the current time is evaluated exactly once) -/
+`r` the rule `IF SYSTEM TIME = c` is due iff `ruleWindowLo r < c ≤ r` (`ruleWindowLo r = r - rule_timestep`, and -1 at the
+first rule timestep), whatever hydraulic solutions lie in between -/
 theorem rule_eq_premise_window (cfg : Cfg) (s : St) (c : Ctl) (thr : Int) (hc : c.cond = .sim ⟨.eq, thr, 0⟩) (hm : c ∈ cfg.rules) :
-    (s.simTime - cfg.rule < thr ∧ thr ≤ s.simTime) →
-      ∃ d ∈ check cfg.startClock (s.simTime - cfg.rule) s.simTime cfg.rules, d.ctl = c ∧ d.which = .thenB := by
+    (ruleWindowLo cfg s.simTime < thr ∧ thr ≤ s.simTime) →
+      ∃ d ∈ check cfg.startClock (ruleWindowLo cfg s.simTime) s.simTime cfg.rules, d.ctl = c ∧ d.which = .thenB := by
   intro hw
   unfold check
   refine ⟨⟨c, .thenB, s.simTime - thr⟩, ?_, rfl, rfl⟩
   apply List.mem_filterMap.2
   refine ⟨c, hm, ?_⟩
-  have : c.cond.eval cfg.startClock (s.simTime - cfg.rule) s.simTime = (true, some (s.simTime - thr)) := by
+  have : c.cond.eval cfg.startClock (ruleWindowLo cfg s.simTime) s.simTime = (true, some (s.simTime - thr)) := by
     rw [hc]; simp only [Cond.eval]; rw [simTime_eq_spec, if_pos hw]
   rw [this]; rfl
+
+/-- … and outside its window the premise is not due -/
+theorem rule_eq_premise_outside (cfg : Cfg) (r thr : Int) (h : ¬ (ruleWindowLo cfg r < thr ∧ thr ≤ r)) :
+    ((Cond.sim ⟨.eq, thr, 0⟩).eval cfg.startClock (ruleWindowLo cfg r) r).1 = false := by
+  simp only [Cond.eval]; rw [simTime_eq_spec, if_neg h]
+
+/-- **the windows tile the time axis**: every instant `c ≥ 0` lies in the window of exactly one positive rule timestep
+`k · rule_timestep` — `c = 0` (and every `c ≤ rule_timestep`) in that of the first.  Together with
+`rules_on_positive_grid` (each positive rule timestep up to the current time is evaluated exactly once) an `=` premise is
+therefore seen exactly once, at the first rule timestep at or after it. -/
+theorem rule_windows_tile (cfg : Cfg) (hR : 0 < cfg.rule) (c : Int) (hc : 0 ≤ c) :
+    ∃ k : Int, 1 ≤ k ∧ (ruleWindowLo cfg (k * cfg.rule) < c ∧ c ≤ k * cfg.rule) ∧
+      ∀ j : Int, 1 ≤ j → (ruleWindowLo cfg (j * cfg.rule) < c ∧ c ≤ j * cfg.rule) → j = k := by
+  have hlo : ∀ j : Int, 1 ≤ j → ruleWindowLo cfg (j * cfg.rule) = if j ≤ 1 then -1 else j * cfg.rule - cfg.rule := by
+    intro j hj
+    unfold ruleWindowLo
+    by_cases h1 : j ≤ 1
+    · have : j = 1 := by omega
+      subst this; simp
+    · have : 2 * cfg.rule ≤ j * cfg.rule := Int.mul_le_mul_of_nonneg_right (by omega) (le_of_lt hR)
+      rw [if_neg (by omega), if_neg h1]
+  by_cases hsmall : c ≤ cfg.rule
+  · refine ⟨1, le_refl _, ?_, ?_⟩
+    · rw [hlo 1 (le_refl _)]; simp; omega
+    · intro j hj hw
+      rw [hlo j hj] at hw
+      by_contra hne
+      have h2 : ¬ j ≤ 1 := by omega
+      rw [if_neg h2] at hw
+      have : 2 * cfg.rule ≤ j * cfg.rule := Int.mul_le_mul_of_nonneg_right (by omega) (le_of_lt hR)
+      omega
+  · -- c > rule: k = ⌈c / rule⌉ ≥ 2
+    let q := (c + cfg.rule - 1) / cfg.rule
+    have hq1 : q * cfg.rule ≤ c + cfg.rule - 1 := Int.ediv_mul_le _ (by omega)
+    have hq2 : c + cfg.rule - 1 < (q + 1) * cfg.rule := Int.lt_ediv_add_one_mul_self _ hR
+    have hq2' : (q + 1) * cfg.rule = q * cfg.rule + cfg.rule := by rw [add_one_mul]
+    have hqge : 2 ≤ q := by
+      by_contra hlt
+      have : q * cfg.rule ≤ 1 * cfg.rule := Int.mul_le_mul_of_nonneg_right (by omega) (le_of_lt hR)
+      omega
+    refine ⟨q, by omega, ?_, ?_⟩
+    · rw [hlo q (by omega), if_neg (by omega)]; omega
+    · intro j hj hw
+      rw [hlo j hj] at hw
+      by_cases hj1 : j ≤ 1
+      · rw [if_pos hj1] at hw
+        have : j = 1 := by omega
+        subst this; omega
+      · rw [if_neg hj1] at hw
+        by_contra hne
+        rcases lt_or_gt_of_ne hne with hlt | hgt
+        · have : (j + 1) * cfg.rule ≤ q * cfg.rule := Int.mul_le_mul_of_nonneg_right (by omega) (le_of_lt hR)
+          rw [add_one_mul] at this; omega
+        · have : (q + 1) * cfg.rule ≤ j * cfg.rule := Int.mul_le_mul_of_nonneg_right (by omega) (le_of_lt hR)
+          omega
+
+example : ruleWindowLo cfgEx 360 = -1 ∧ ruleWindowLo cfgEx 720 = 360 := by decide
 
 /-- the window the code used before the repair — the previous SOLVE time — misses the premise when a control makes
 the simulator solve between the instant and the next rule timestep: rule `SYSTEM TIME = 3:41`, rule step 30 min, a
